@@ -10,6 +10,14 @@ what="${1:-all}"
 mkdir -p bin work
 (
   flock 9
+  if [ "$what" = all ] || [ "$what" = coq ] || [ "$what" = gen ]; then
+    # translators: regenerate the table-shaped parts of the model from /repo's current source
+    ( cd tools/genlockset && timeout 600 go build -o ../../bin/genlockset . ) > work/tools_build.log 2>&1 || { tail -20 work/tools_build.log; echo "TOOLS BUILD FAILED"; exit 3; }
+    ( cd tools/genendpoints && timeout 600 go build -o ../../bin/genendpoints . ) >> work/tools_build.log 2>&1 || { tail -20 work/tools_build.log; echo "TOOLS BUILD FAILED"; exit 3; }
+    ./bin/genlockset /repo coq/gen/Lockset_gen.v > work/gen.log 2>&1 || { cat work/gen.log; echo "TRANSLATOR FAILED"; exit 5; }
+    ./bin/genendpoints /repo coq/gen/Endpoints_gen.v >> work/gen.log 2>&1 || { cat work/gen.log; echo "TRANSLATOR FAILED"; exit 5; }
+    python3 mkknown.py
+  fi
   if [ "$what" = all ] || [ "$what" = coq ]; then
     ( cd coq && { [ -f Makefile ] && [ Makefile -nt _CoqProject ] || coq_makefile -f _CoqProject -o Makefile >/dev/null; } && timeout 3000 make -j16 2>&1 | grep -v "WARNING: overwriting environment" ) > work/coq_build.log 2>&1 || { cat work/coq_build.log | tail -40; echo "COQ BUILD FAILED"; exit 3; }
   fi
@@ -17,6 +25,9 @@ mkdir -p bin work
     if [ ! -x bin/modelrun ] || [ -n "$(find coq/model coq/extract ocaml/sx.ml ocaml/driver.ml -newer bin/modelrun -name '*.v' -o -newer bin/modelrun -name '*.ml' | head -1)" ]; then
       ( cd ocaml && timeout 600 coqc -Q ../coq RV ../coq/extract/Extract.v && timeout 600 ocamlfind ocamlopt -O2 -package zarith -linkpkg -w -a Model.mli Model.ml sx.ml driver.ml -o ../bin/modelrun ) > work/ocaml_build.log 2>&1 || { tail -40 work/ocaml_build.log; echo "OCAML BUILD FAILED"; exit 3; }
     fi
+  fi
+  if [ "$what" = race ]; then
+    ( cd harness && cp /repo/go.sum . && timeout 1200 go build -race -o ../bin/rvharness_race . ) > work/go_race_build.log 2>&1 || { tail -40 work/go_race_build.log; echo "GO BUILD FAILED"; exit 4; }
   fi
   if [ "$what" = all ] || [ "$what" = go ]; then
     ( cd harness && cp /repo/go.sum . && timeout 900 go build -o ../bin/rvharness . ) > work/go_build.log 2>&1 || { tail -40 work/go_build.log; echo "GO BUILD FAILED"; exit 4; }
